@@ -4,7 +4,7 @@ from core.wire import atom, line, parse_reply, Atom
 
 ID = "C47"
 LEAN_TARGETS = ["TornadoModel.C47.Props"]
-THEOREMS_ALL = [
+THEOREMS = [
     "TornadoModel.C47.environ_total",
     "TornadoModel.C47.old_environ_raises",
     "TornadoModel.C47.host_port_explicit",
@@ -13,10 +13,8 @@ THEOREMS_ALL = [
     "TornadoModel.C47.environ_fields",
     "TornadoModel.C47.environ_content_headers",
     "TornadoModel.C47.response_faithful",
-    "TornadoModel.C47.group_values",
     "TornadoModel.C47.wire_shape",
 ]
-THEOREMS = ["TornadoModel.C47.stub"]
 TRUSTED = [
     "HTTPHeaders (`in`, `pop`, `items()`, `add`, `get_all`) as the ordered multimap of property C06, restated on pair lists",
     "HTTP1Connection.write_headers/finish for a response that carries Content-Length (never chunked): modelled by `wire`, "
@@ -44,7 +42,7 @@ CLAUSES = {
     "host name and port as the CGI conventions require": "host_port_explicit + host_port_absent + host_port_ipv6_literal + environ_fields",
     "content headers and other headers": "environ_content_headers + tie (HTTP_* entries: correspondence and oracle `Spec.expected`)",
     "status, headers and body reach the client unchanged apart from the three defaults":
-        "response_faithful + group_values + wire_shape; the wire bytes themselves: tie (exact comparison with HTTP1Connection)",
+        "response_faithful + wire_shape; tie only: regrouping of repeated header names by HTTPHeaders (group_values_goal) and the wire bytes themselves (exact comparison with HTTP1Connection, oracle Spec.faithful on the parsed response)",
 }
 PARALLEL = True
 CASE_TIMEOUT = 120
